@@ -985,6 +985,48 @@ pub fn c18_case(rng: &mut Rng, max_objects: usize) -> String {
             &format!("{:?}", build(&lasts)),
         );
         f.eq("last call wins", &format!("{:?}", build(&lasts)), &format!("{d:?}"));
+        // 4b. a setter's effect may not depend on what was set before it or on being called
+        // twice: every setter before `mods`, after `mods`, and twice in a row, with values that
+        // coincide with what the (earlier or later) mods imply — builder path vs Difficulty path
+        let m = *rng.pick(&[16u32, 64, 256, 16 + 64, 2]);
+        let pairs: Vec<(Setter, Setter)> = vec![
+            (Setter::Hro(false), Setter::Hro(true)),
+            (Setter::Hro(true), Setter::Hro(false)),
+            (Setter::Clock(1.0), Setter::Clock(1.5)),
+            (Setter::Clock(1.5), Setter::Clock(1.0)),
+            (Setter::Clock(0.75), Setter::Clock(1.0)),
+            (Setter::Lazer(true), Setter::Lazer(false)),
+            (Setter::Lazer(false), Setter::Lazer(true)),
+            (Setter::Ar(5.0, false), Setter::Ar(9.0, true)),
+            (Setter::Cs(4.0, true), Setter::Cs(4.0, false)),
+            (Setter::Hp(5.0, false), Setter::Hp(5.0, true)),
+            (Setter::Od(5.0, true), Setter::Od(8.0, false)),
+            (Setter::Passed(total as u32), Setter::Passed((total / 2) as u32)),
+        ];
+        for (a, b) in &pairs {
+            let seqs: [Vec<Setter>; 4] = [
+                vec![a.clone(), Setter::Mods(m)],
+                vec![Setter::Mods(m), a.clone(), b.clone()],
+                vec![Setter::Mods(m), a.clone(), b.clone(), a.clone()],
+                vec![a.clone(), Setter::Mods(m), Setter::Mods(0), b.clone()],
+            ];
+            for seq in &seqs {
+                let mut d = Difficulty::new();
+                let mut p = Performance::new(&c.conv);
+                let mut pm = mode_perf_from_map(c.target, &c.conv);
+                for s in seq {
+                    d = s.on_difficulty(d);
+                    p = s.on_performance(p);
+                    pm = s.on_performance(pm);
+                }
+                let want = spec.apply(Performance::new(&c.conv).difficulty(d)).calculate().json();
+                let names = arr(seq.iter().map(Setter::json));
+                f.eq(&format!("Performance setters in the order {names} == the same calls on a Difficulty"),
+                     &spec.apply(p).calculate().json(), &want);
+                f.eq(&format!("mode builder setters in the order {names} == the same calls on a Difficulty"),
+                     &spec.apply(pm).calculate().json(), &want);
+            }
+        }
         // 5. setters documented as irrelevant for the mode leave the result untouched
         let base = c.st.difficulty();
         let want = spec
